@@ -165,6 +165,9 @@ class TwistedEventLoop(EventLoop):
         fd -- file descriptor to watch for input
         callback -- function to call when input is available
         """
+        if fd in self._watch_files:
+            # the reactor keeps one reader per descriptor and ignores a second one: replace the old watch
+            self.reactor.removeReader(self._watch_files[fd])
         ind = _TwistedInputDescriptor(self.reactor, fd, self.handle_exit(callback))
         self._watch_files[fd] = ind
         self.reactor.addReader(ind)
